@@ -362,7 +362,8 @@ def with_rejection(sc_strategy):
         sc, k = pair
         sc = json.loads(json.dumps(sc))
         idx = k % len(sc['obs'])
-        sc['hot']['rate'] = sc['obs'][idx]['rate'] - 1
+        # the limit lies 1, or only a fraction, below that observation's rate (fractional limits arise from unit conversion)
+        sc['hot']['rate'] = sc['obs'][idx]['rate'] - (1, 0.4, 1, 0.25, 0.5, 1, 0.4, 1)[k % 8]
         sc['reject'] = [o['name'] for o in sc['obs'] if o['rate'] > sc['hot']['rate']]
         return sc
     return st.tuples(sc_strategy, st.integers(0, 7)).map(mk)
@@ -472,6 +473,19 @@ class C08(SimSpec):
         kw = self.gen_kwargs(tier)
         return self.strategy_with_probe(self.base_strategy(tier))
 
+    @staticmethod
+    def cold_too_small(sc_strategy):
+        """the largest observation does not fit the COLD buffer: it must never begin (the run then never ends - that is
+        an infeasible configuration, outside C05 - but 'begins only if ... hot and cold buffers both have room' is
+        judged on the prefix)"""
+        def mk(sc):
+            sc = json.loads(json.dumps(sc))
+            big = max(o['rate'] * o['duration'] for o in sc['obs'])
+            sc['cold']['capacity'] = max(1, big - 1)
+            sc['infeasible_cold'] = True
+            return sc
+        return sc_strategy.map(mk)
+
     def base_strategy(self, tier):
         kw = self.gen_kwargs(tier)
         return mix((3, scenarios(min_obs=2, delays=True, **kw)),
@@ -479,8 +493,13 @@ class C08(SimSpec):
                    (1, scenarios(min_obs=2, few_machines=True, **kw)),
                    (2, crowd(kw, min_obs=3, delays=True)),
                    (2, limited(kw)), (2, tight(kw)), (2, scenarios(modes=('bandov',), **kw)), (2, swarm(kw, delays=True)),
+                   (1, self.cold_too_small(scenarios(modes=('roomy',), max_obs=3, max_nodes=3, max_duration=4,
+                                                     max_machines=kw['max_machines']))),
                    (1, scenarios(unsorted=True, min_obs=2, **kw)),
                    (1, scenarios(min_obs=3, start_gaps=(0, 0, 1), **kw)))
+
+    def aborted(self, tr):
+        return tr.status != 'completed' and not tr.sc.get('infeasible_cold')
 
     def strategy_with_probe(self, base):
         def add(pair):
